@@ -2,6 +2,8 @@
 import ast
 
 from .. import pathlex as PL
+from ..flow import Taint
+from ..typedispatch import calls_in, follow
 from ..model import AnalysisError, attr_chain, call_name, stmts_in
 
 EXPLANATION = (
@@ -47,15 +49,25 @@ def lexer_state(ctx):
         bad = []
         for v in values:
             src = ast.unparse(v)
-            ok = isinstance(v, ast.Constant) or (isinstance(v, ast.Name)) or src in ("match.end()", "match.group()") \
+            fn = v
+            while fn is not None and not isinstance(fn, ast.FunctionDef):
+                fn = getattr(fn, "_parent", None)
+            # locals holding a token match object: bound from <compiled token regex>.match(...)
+            match_vars = set()
+            if fn is not None:
+                for n in ast.walk(fn):
+                    if isinstance(n, ast.Assign) and len(n.targets) == 1 and isinstance(n.targets[0], ast.Name) and isinstance(n.value, ast.Call) \
+                            and isinstance(n.value.func, ast.Attribute) and n.value.func.attr == "match" and isinstance(n.value.func.value, ast.Name) \
+                            and n.value.func.value.id in ctx.m.regexes:
+                        match_vars.add(n.targets[0].id)
+            of_match = isinstance(v, ast.Call) and isinstance(v.func, ast.Attribute) and v.func.attr in ("end", "group", "start") and not v.args \
+                and isinstance(v.func.value, ast.Name) and v.func.value.id in match_vars
+            ok = isinstance(v, ast.Constant) or (isinstance(v, ast.Name)) or of_match \
                 or (isinstance(v, ast.Call) and isinstance(v.func, ast.Name) and v.func.id == "len")
             if not ok:
                 bad.append(src)
             if isinstance(v, ast.Name):
                 # a parameter of the enclosing function only
-                fn = v
-                while fn is not None and not isinstance(fn, ast.FunctionDef):
-                    fn = getattr(fn, "_parent", None)
                 params = [a.arg for a in fn.args.args] if fn is not None else []
                 if v.id not in params:
                     bad.append("%s (not a parameter)" % src)
@@ -120,32 +132,37 @@ def state_from_segments(ctx):
 
 def routing(ctx):
     ia = ctx.fn("Path.__iadd__", "R17.3")
-    ok = False
-    for s in ast.walk(ia):
-        if isinstance(s, ast.If) and ast.unparse(s.test) == "isinstance(other, str)":
-            ok = len(s.body) == 1 and ast.unparse(s.body[0]) == "self.parse(other)"
-    ctx.ob("R17.3", "Path.__iadd__[str]", ok, "", ia.lineno, "path += string must continue the parse on this path")
+    other = ia.args.args[1].arg
+    pth = follow(ctx, "R17.3", ia, {other: "str"})
+    parses = calls_in(pth.stmts, lambda c: attr_chain(c.func) == ["self", "parse"] and len(c.args) == 1 and isinstance(c.args[0], ast.Name) and c.args[0].id == other)
+    ok = bool(parses) and pth.exit == "return" and isinstance(pth.value, ast.Name) and pth.value.id == "self" \
+        and not calls_in(pth.stmts, lambda c: call_name(c) == "Path" or (isinstance(c.func, ast.Attribute) and c.func.attr in ("clear", "extend", "append")))
+    ctx.ob("R17.3", "Path.__iadd__[str]", ok, "; ".join(ast.unparse(x)[:50] for x in pth.stmts), ia.lineno, "path += string must continue the parse on this path")
     ad = ctx.fn("Path.__add__", "R17.3")
-    src = [ast.unparse(s) for s in stmts_in(ad.body)]
-    ok = any(x in src for x in ("n = copy(self)", "n = self.__copy__()")) and "n += other" in src and "return n" in src \
-        and any("str" in ast.unparse(s.test) for s in ast.walk(ad) if isinstance(s, ast.If))
-    ctx.ob("R17.3", "Path.__add__[str]", ok, "; ".join(src)[:200], ad.lineno, "path + string = copy, then += string")
+    other = ad.args.args[1].arg
+    pth = follow(ctx, "R17.3", ad, {other: "str"})
+    copies = Taint(pth.stmts, lambda n: isinstance(n, ast.Call) and ((call_name(n) == "copy" and n.args and isinstance(n.args[0], ast.Name) and n.args[0].id == "self")
+                                                                      or attr_chain(n.func) == ["self", "__copy__"] or (call_name(n) == "Path" and n.args and isinstance(n.args[0], ast.Name) and n.args[0].id == "self")),
+                   through_containers=False)
+    adds = [x for x in pth.stmts if isinstance(x, ast.AugAssign) and isinstance(x.op, ast.Add) and isinstance(x.target, ast.Name) and x.target.id in copies.names
+            and isinstance(x.value, ast.Name) and x.value.id == other]
+    ok = bool(adds) and pth.exit == "return" and isinstance(pth.value, ast.Name) and pth.value.id in copies.names
+    ctx.ob("R17.3", "Path.__add__[str]", ok, "; ".join(ast.unparse(x)[:50] for x in pth.stmts)[:200], ad.lineno, "path + string = copy, then += string")
     ps = ctx.fn("PathSegment.__iadd__", "R17.3")
+    other = ps.args.args[1].arg
+    pth = follow(ctx, "R17.3", ps, {other: "str"})
     ok = False
-    for s in ast.walk(ps):
-        if isinstance(s, ast.If):
-            for t, body in _chain(s):
-                if t is not None and ast.unparse(t) == "isinstance(other, str)":
-                    for x in body:
-                        for n in ast.walk(x):
-                            # Path(<self or a copy of self>) + other   /   p = Path(..self..); p += other / p.parse(other)
-                            if isinstance(n, ast.BinOp) and isinstance(n.op, ast.Add) and call_name(n.left) == "Path" and ast.unparse(n.right) == "other" \
-                                    and any(isinstance(a, ast.Name) and a.id == "self" for a in ast.walk(n.left)):
-                                ok = True
-                            if isinstance(n, ast.Call) and isinstance(n.func, ast.Attribute) and n.func.attr == "parse" and ast.unparse(n.args[0]) == "other":
-                                ok = True
-                            if isinstance(n, ast.AugAssign) and isinstance(n.op, ast.Add) and ast.unparse(n.value) == "other":
-                                ok = True
+    for x in pth.stmts:
+        for n in ast.walk(x):
+            # Path(<self or a copy of self>) + other   /   p = Path(..self..); p += other / p.parse(other)
+            if isinstance(n, ast.BinOp) and isinstance(n.op, ast.Add) and call_name(n.left) == "Path" and isinstance(n.right, ast.Name) and n.right.id == other \
+                    and any(isinstance(a, ast.Name) and a.id == "self" for a in ast.walk(n.left)):
+                ok = True
+            if isinstance(n, ast.Call) and isinstance(n.func, ast.Attribute) and n.func.attr == "parse" and n.args and isinstance(n.args[0], ast.Name) and n.args[0].id == other:
+                ok = True
+            if isinstance(n, ast.AugAssign) and isinstance(n.op, ast.Add) and isinstance(n.value, ast.Name) and n.value.id == other:
+                ok = True
+    ok = ok and any(call_name(c) == "Path" and any(isinstance(a, ast.Name) and a.id == "self" for a in ast.walk(c)) for x in pth.stmts for c in ast.walk(x) if isinstance(c, ast.Call))
     ctx.ob("R17.3", "PathSegment.__iadd__[str]", ok, "", ps.lineno, "segment + string = Path(segment) + string")
     cls = ctx.m.cls("PathSegment")
     ctx.ob("R17.3", "PathSegment.__add__ alias", cls.aliases.get("__add__") == "__iadd__", str(cls.aliases.get("__add__")), cls.node.lineno, "")
@@ -169,21 +186,27 @@ def _chain(s):
 
 def concatenation(ctx):
     ia = ctx.fn("Path.__iadd__", "R17.4")
-    from ..model import if_chain
-
-    top = [s for s in ia.body if isinstance(s, ast.If)]
-    ctx.need(top, "R17.4", "Path.__iadd__: dispatch not found")
-    seen = {}
-    for t, body in if_chain(top[0]):
-        if t is not None:
-            seen[ast.unparse(t)] = [ast.unparse(x) for x in body]
-    pth = [v for k, v in seen.items() if "Path" in k and "Subpath" in k]
-    ok = bool(pth) and any("self.extend(" in x and ("map(copy" in x or "copy(" in x) for x in pth[0])
-    ctx.ob("R17.4", "Path.__iadd__[Path/Subpath]", ok, str(pth), ia.lineno, "concatenation must copy the right operand's segments and link them through extend")
-    shp = [v for k, v in seen.items() if k == "isinstance(other, Shape)"]
-    ok = bool(shp) and shp[0] == ["self.parse(other.d())"]
-    ctx.ob("R17.4", "Path.__iadd__[Shape]", ok, str(shp), ia.lineno, "a shape is appended as its path data")
+    other = ia.args.args[1].arg
+    for tname in ("Path", "Subpath"):
+        pth = follow(ctx, "R17.4", ia, {other: tname})
+        ext = calls_in(pth.stmts, lambda c: attr_chain(c.func) == ["self", "extend"] and len(c.args) == 1)
+        copied = bool(ext) and all(any((isinstance(n, ast.Name) and n.id == "copy") or (isinstance(n, ast.Attribute) and n.attr == "__copy__") for n in ast.walk(c.args[0]))
+                                   and other in {n.id for n in ast.walk(c.args[0]) if isinstance(n, ast.Name)} for c in ext)
+        raw = calls_in(pth.stmts, lambda c: isinstance(c.func, ast.Attribute) and c.func.attr in ("append", "insert") and attr_chain(c.func.value) in (["self"], ["self", "_segments"]))
+        ctx.ob("R17.4", "Path.__iadd__[%s]" % tname, copied and not raw and pth.exit == "return", "; ".join(ast.unparse(x)[:60] for x in pth.stmts), ia.lineno,
+               "concatenation must copy the right operand's segments and link them through extend")
+    pth = follow(ctx, "R17.4", ia, {other: "Rect"})
+    ok = bool(calls_in(pth.stmts, lambda c: attr_chain(c.func) == ["self", "parse"] and len(c.args) == 1 and isinstance(c.args[0], ast.Call) and attr_chain(c.args[0].func) == [other, "d"]))
+    ctx.ob("R17.4", "Path.__iadd__[Shape]", ok, "; ".join(ast.unparse(x)[:60] for x in pth.stmts), ia.lineno, "a shape is appended as its path data")
     ex = ctx.fn("Path.extend", "R17.4")
-    src = ast.unparse(ex)
-    ctx.ob("R17.4", "Path.extend[links]", "self._validate_connection(index)" in src and "index = len(self._segments) - 1" in src, "", ex.lineno,
+    vc = [c for c in ast.walk(ex) if isinstance(c, ast.Call) and attr_chain(c.func) == ["self", "_validate_connection"] and len(c.args) == 1]
+    # the index handed to the validator is the position of the last old segment: len(self._segments) - 1 taken BEFORE the new ones are added
+    okl = False
+    for c in vc:
+        t = Taint(ex, lambda n: isinstance(n, ast.Call) and call_name(n) == "len" and n.args and attr_chain(n.args[0]) == ["self", "_segments"], through_containers=False)
+        okl = okl or t.derived(c.args[0])
+    lens = [n for n in ast.walk(ex) if isinstance(n, ast.Call) and call_name(n) == "len" and n.args and attr_chain(n.args[0]) == ["self", "_segments"]]
+    grows = [c for c in ast.walk(ex) if isinstance(c, ast.Call) and isinstance(c.func, ast.Attribute) and c.func.attr in ("extend", "append") and attr_chain(c.func.value) == ["self", "_segments"]]
+    before = bool(lens) and bool(grows) and min(n.lineno for n in lens) < min(c.lineno for c in grows)
+    ctx.ob("R17.4", "Path.extend[links]", bool(vc) and okl and before, "", ex.lineno,
            "the first appended segment's start is linked to the previous end")
